@@ -6,7 +6,6 @@ import (
 	"bufio"
 	"fmt"
 	"io"
-	"net"
 	"os"
 	"os/exec"
 	"sort"
@@ -28,25 +27,7 @@ import (
 // the simulator against the full stack: the knock-on effects of the transport (blocking sends, connection teardown,
 // Leave during Stop) are invisible to the simulator.
 
-var (
-	vfRealPortMu   sync.Mutex
-	vfRealPortNext int
-)
-
-func vfRealAddr() string {
-	vfRealPortMu.Lock()
-	defer vfRealPortMu.Unlock()
-	base := 10000 + (os.Getpid()%44)*500
-	for tries := 0; tries < 500; tries++ {
-		a := fmt.Sprintf("127.0.0.1:%d", base+vfRealPortNext%500)
-		vfRealPortNext++
-		if l, err := net.Listen("tcp", a); err == nil {
-			_ = l.Close()
-			return a
-		}
-	}
-	panic("no free port")
-}
+func vfRealAddr() string { return verifrt.FreeAddr() }
 
 type vfRealEvents struct {
 	mu  sync.Mutex
